@@ -1250,6 +1250,15 @@ func (t *ftr) stdFunc(e *ast.CallExpr) (string, bool) {
 	case full == "github.com/miekg/dns.Fqdn" && asciiStrings:
 		usesGoList = true
 		return "(go_fqdn_ascii " + t.exprAs(e.Args[0], byteList) + ")", true
+	case (full == "strings.IndexFunc" || full == "bytes.IndexFunc") && asciiStrings && len(e.Args) == 2:
+		// only the one use the repository has: the first white-space octet (unicode.IsSpace on ASCII)
+		if sel2, ok := e.Args[1].(*ast.SelectorExpr); ok {
+			if f2, ok := t.pi.info.Uses[sel2.Sel].(*types.Func); ok && f2.FullName() == "unicode.IsSpace" {
+				usesGoList = true
+				return "(go_index_space_ascii " + t.exprAs(e.Args[0], byteList) + ")", true
+			}
+		}
+		return "", false
 	case (full == "strings.ToLower" || full == "bytes.ToLower") && asciiStrings:
 		usesGoList = true
 		return "(go_ascii_lower " + t.exprAs(e.Args[0], byteList) + ")", true
